@@ -21,7 +21,7 @@ PROP = 'C14'
 MANIFEST = dict(
     category='exploration', design_ref='DESIGN.md §3 C14',
     technique='bounded-exhaustive enumeration of hypernym graphs x ordered pairs x simulate_root x IC weight tables on the real similarity functions vs the documented formulas over a reference graph model (acceptance sets for LCS choice)',
-    text='For every labelled digraph with self-loops on up to 3 nodes, every loop-free digraph on 4 nodes (thorough: DAGs on 5 nodes) and part-of-speech colourings, every ordered pair of synsets and simulate_root value: path must equal 1/(p+1) with p the reference shortest-path length (0.0 when nothing is shared, 1.0 for identical synsets, within [0,1]); lch must equal -log((p+1)/2d) for every tried depth d and raise for d<=0; wup must equal 2k/(i+j+2k) for some reference lowest common hypernym (i, j reference distances, k its depth in nodes), lie in (0,1], be 1.0 for identical synsets and never exceed self-similarity; res/jcn/lin must follow their formulas (incl. the documented zero/infinity cases) for some reference LCS over every weight table (all assignments of {1,2,5} to the nodes); every metric must be symmetric in its arguments; the same graphs are also presented in expanded mode (stored in an expand lexicon, only 2..n of the nodes present in the queried lexicon, the others seen as *INFERRED* placeholders) for path, lch and wup, and in extension mode (one node, one edge or all edges contributed by a lexicon extension, queried together with the base) for all six metrics; wn.Error must be raised exactly for incompatible parts of speech (a and s compatible) and when nothing is shared without simulate_root. Exact formula comparison on DAGs; on cyclic graphs bounds, symmetry, error rule and termination.',
+    text='For every labelled digraph with self-loops on up to 3 nodes, every loop-free digraph on 4 nodes (thorough: DAGs on 5 nodes) and part-of-speech colourings, every ordered pair of synsets and simulate_root value: path must equal 1/(p+1) with p the reference shortest-path length (0.0 when nothing is shared, 1.0 for identical synsets, within [0,1]); lch must equal -log((p+1)/2d) for every tried depth d and raise for d<=0; wup must equal 2k/(i+j+2k) for some reference lowest common hypernym (i, j reference distances, k its depth in nodes), lie in (0,1], be 1.0 for identical synsets and never exceed self-similarity; res must be the maximum information content over the common hypernyms (or over the lowest ones, as its documentation says it is computed) - on cyclic graphs too -, jcn/lin must follow their formulas (incl. the documented zero/infinity cases) for some reference LCS or the most informative common hypernym, over every weight table (all assignments of {1,2,5} to the nodes); every metric must be symmetric in its arguments; the same graphs are also presented in expanded mode (stored in an expand lexicon, only 2..n of the nodes present in the queried lexicon, the others seen as *INFERRED* placeholders) for path, lch and wup, and in extension mode (one node, one edge or all edges contributed by a lexicon extension, queried together with the base) for all six metrics; wn.Error must be raised exactly for incompatible parts of speech (a and s compatible) and when nothing is shared without simulate_root. Exact formula comparison on DAGs; on cyclic graphs bounds, symmetry, error rule and termination.',
     note='Where the documentation contradicts itself (res: maximum IC vs LCS of highest weight; lin denominator) either documented reading is accepted; a value outside all readings is a violation.',
 )
 
@@ -160,6 +160,7 @@ def check_graph(lid, g, edges, V, obs):
                 continue
             lcs = ref.lch(a, b, False) if ref.dag else None
             shared = bool(ref.common(a, b, False))
+            allc = ref.common(a, b, False)
             for tb in tables:
                 freq = {p: {None: 10.0} for p in 'nvar'}
                 for i in range(n):
@@ -180,10 +181,19 @@ def check_graph(lid, g, edges, V, obs):
                     st2, v2 = call(f, ss[b], ss[a], freq)
                     if st2 == 'ok' and not (v2 == v):
                         bad(f'{f.__name__}:asymmetric', f'{f.__name__}({a},{b})={v} ({b},{a})={v2} table {tb}')
+                    if f is sim.res:
+                        # documented: the maximum information content over the common subsumers ("more
+                        # efficiently computed using the lowest common hypernyms"): the maximum over all common
+                        # hypernyms, or over the lowest ones where depth is defined - never a smaller value
+                        acc = {max(ic[c] for c in allc)} | ({max(ic[c] for c in lcs)} if lcs else set())
+                        if not any(close(v, x) for x in acc):
+                            bad('res:formula', f'res({a},{b}) table {tb} = {v} expected the maximum IC {sorted(acc)} '
+                                f'(IC by node: { {c: round(ic[c], 4) for c in sorted(allc)} })')
+                        continue
                     if lcs is None:
                         continue
                     acc = set()
-                    for c in lcs:
+                    for c in set(lcs) | {max(allc, key=lambda c: ic[c])}:
                         ic0 = ic[c]
                         if f is sim.res:
                             acc.add(ic0)
